@@ -46,15 +46,30 @@ const STATUSES: &[u16] = &[200, 204, 304, 100, 101, 199, 201, 206, 299, 300, 301
 
 fn cl_value(g: &mut G, n: usize) -> (String, bool, bool) {
     // (text, valid, debatable)
-    match g.below(12) {
+    match g.below(13) {
         0..=4 => (n.to_string(), true, false),
         5 => ("-1".into(), false, false),
         6 => ("".into(), false, false),
-        7 => ((*g.pick(&["abc", "1x", "0x10", "1e3", "1.0", "١٢"])).to_string(), false, false),
-        8 => ("18446744073709551616".into(), false, false),
-        9 => ("99999999999999999999999999".into(), false, false),
+        7 => ((*g.pick(&["abc", "1x", "0x10", "1e3", "1.0", "١٢", "5\u{0}", "1\u{7f}0", "4\u{1}", "\u{8}7"])).to_string(), false, false),
+        8 => {
+            // k * 2^64 + n: wraps to the true length under careless 64-bit arithmetic
+            let k: u128 = *g.pick(&[1u128, 1, 2, 3, 5, 10, 16, 100]);
+            ((k * (1u128 << 64) + n as u128).to_string(), false, false)
+        }
+        9 => {
+            // any decimal number above 2^64-1: a leading digit 2..9 followed by 19..29 more digits
+            let mut v = ((2 + g.below(8)) as u8 + b'0') as char;
+            let mut t = String::new();
+            t.push(v);
+            for _ in 0..g.range(19, 29) {
+                v = (g.below(10) as u8 + b'0') as char;
+                t.push(v);
+            }
+            (t, false, false)
+        }
         10 => (format!("+{}", n), false, true),
-        _ => (format!("{}, {}", n, n), false, true),
+        11 => (format!("{}, {}", n, n), false, true),
+        _ => (n.to_string(), true, false),
     }
 }
 
@@ -163,7 +178,7 @@ fn gen(g: &mut G) -> Plan {
         };
         let g2: &[u8] = if framing == Framing::Close { &[] } else { &garbage };
         httpref::encode_body(&mut wire, framing, &payload, &chunks, b"0", g2);
-        if framing == Framing::Close || expect == Expect::Fail || expect == Expect::DontCare {
+        if framing == Framing::Close || expect == Expect::DontCare {
             end = End::Fin;
         }
     }
@@ -192,10 +207,12 @@ struct Obs {
     read_err: Option<String>,
     output: Vec<u8>,
     t_body: (u64, u64),
+    /// simulated time at which the caller program ended
+    t_end: u64,
 }
 
 fn caller(p: &Plan) -> Obs {
-    let mut o = Obs { send_err: None, read_err: None, output: Vec::new(), t_body: (0, 0) };
+    let mut o = Obs { send_err: None, read_err: None, output: Vec::new(), t_body: (0, 0), t_end: 0 };
     let url = format!("http://{}/r", bodyx::HOST_IP);
     let r = attohttpc::RequestBuilder::new(attohttpc::Method::from_bytes(p.method.as_bytes()).unwrap(), url)
         .follow_redirects(false)
@@ -205,6 +222,7 @@ fn caller(p: &Plan) -> Obs {
         Ok(r) => r,
         Err(e) => {
             o.send_err = Some(err_kind(&e));
+            o.t_end = attosim::now_ns();
             return o;
         }
     };
@@ -229,6 +247,7 @@ fn caller(p: &Plan) -> Obs {
         }
     }
     o.t_body = (t_in, attosim::now_ns());
+    o.t_end = o.t_body.1;
     o
 }
 
@@ -253,7 +272,15 @@ pub fn scenario(g: &mut G, ctx: &RunCtx) -> RunReport {
         Some(Ok(o)) => match &p.expect {
             Expect::DontCare => Verdict::Pass,
             Expect::Fail => {
-                if o.send_err.is_some() || o.read_err.is_some() {
+                // "refused rather than guessed": the failure must not come from waiting for bytes a guessed
+                // length would still expect - it has to be reported by the time the last byte was delivered
+                let last_delivery = ran.history.conns.first().map(|c| c.events.iter().filter_map(|e| if let attosim::ConnEv::Delivered { t, .. } = e { Some(*t) } else { None }).max().unwrap_or(0)).unwrap_or(0);
+                if (o.send_err.is_some() || o.read_err.is_some()) && o.t_end > last_delivery {
+                    violation(
+                        format!("bad-length-waited-for:{}", tag),
+                        format!("Content-Length fields {:?} ended in an error only after waiting {} s for more bytes from a silent peer: a length had been guessed", p.cl, (o.t_end - last_delivery) / NS_PER_S),
+                    )
+                } else if o.send_err.is_some() || o.read_err.is_some() {
                     Verdict::Pass
                 } else {
                     violation(
